@@ -254,6 +254,11 @@ def configs(tier):
         # a single window that fills the decoder's whole address space (no constant pattern bits at all)
         out.append(dict(part=1, dw=dw, tree=dec(3, [sub(stub(3))])))
         out.append(dict(part=1, dw=dw, tree=dec(4, [sub(dec(3, [sub(stub(3), name="all")]), name="half"), sub(stub(2))])))
+        # a hole BELOW the first window while the remaining windows run back to back up to the top of the space
+        # (wave 9: C01_15 - the last window decoded with an all-don't-care pattern)
+        out.append(dict(part=1, dw=dw, tree=dec(4, [sub(stub(2), addr=4), sub(stub(2)), sub(stub(2))])))
+        out.append(dict(part=1, dw=dw, tree=dec(4, [sub(stub(2), addr=8), sub(stub(2))])))
+        out.append(dict(part=1, dw=dw, tree=dec(5, [sub(stub(3), align_to=3 + 0, addr=8), sub(stub(3)), sub(stub(3))])))
         # nested decoders, two deep
         out.append(dict(part=1, dw=dw, tree=dec(5, [sub(stub(2)), sub(dec(3, [sub(stub(1)), sub(stub(2), name="x")])),
                                                     sub(stub(1), name="y")])))
